@@ -70,12 +70,15 @@ struct Config {
     update_fault: Option<usize>,
     /// reference store only: the k-th lookup fails (a transient store error)
     find_fault: Option<usize>,
+    /// in-memory store only (it finds by id alone): the seeded credentials' stored RP ID is spelled
+    /// differently from the request's (imported, or registered through another entry point)
+    alias_rp: bool,
 }
 
 impl Config {
     fn json(&self) -> Value {
         json!({"configuration": self.name, "ceremonies": self.cers.iter().map(|c| format!("{c:?}")).collect::<Vec<_>>(), "store": format!("{:?}", self.store),
-            "lock": format!("{:?}", self.lock), "uv_yields": self.uv_yields, "store_yields": self.store_yields, "newest_first": self.newest_first, "update_fault": self.update_fault, "find_fault": self.find_fault})
+            "lock": format!("{:?}", self.lock), "uv_yields": self.uv_yields, "store_yields": self.store_yields, "newest_first": self.newest_first, "update_fault": self.update_fault, "find_fault": self.find_fault, "stored_rp_id_spelled_differently": self.alias_rp})
     }
 }
 
@@ -110,7 +113,12 @@ fn seed_creds() -> Vec<Passkey> {
 /// them under `choose`.
 fn run_config(cfg: &Config, choose: &mut dyn FnMut(usize, usize) -> usize) -> RunOut {
     let log = Log::new();
-    let creds = seed_creds();
+    let mut creds = seed_creds();
+    if cfg.alias_rp {
+        for c in creds.iter_mut() {
+            c.rp_id = "EXAMPLE.com.".into();
+        }
+    }
     macro_rules! go {
         ($shared:expr, $snap:expr) => {{
             let shared = $shared;
@@ -335,18 +343,21 @@ fn configs(thorough: bool) -> Vec<Config> {
                 for uv_yields in [1usize, 2] {
                     let sy: Vec<usize> = if store == StoreKind::Rec { if thorough { vec![0, 1] } else { vec![1] } } else { vec![0] };
                     for store_yields in sy {
-                        v.push(Config { name, cers: cers.clone(), store, lock, uv_yields, store_yields, newest_first: false, update_fault: None, find_fault: None });
+                        v.push(Config { name, cers: cers.clone(), store, lock, uv_yields, store_yields, newest_first: false, update_fault: None, find_fault: None, alias_rp: false });
+                        if store == StoreKind::Memory && uv_yields == 1 && cers.iter().any(|c| matches!(c, Cer::Assert(_) | Cer::AssertBoth(_))) {
+                            v.push(Config { name, cers: cers.clone(), store, lock, uv_yields, store_yields, newest_first: false, update_fault: None, find_fault: None, alias_rp: true });
+                        }
                         if store == StoreKind::Rec && uv_yields == 1 {
                             // a conforming store that lists newest first and answers id-less lookups
                             if cers.contains(&Cer::AssertAny) {
-                                v.push(Config { name, cers: cers.clone(), store, lock, uv_yields, store_yields, newest_first: true, update_fault: None, find_fault: None });
+                                v.push(Config { name, cers: cers.clone(), store, lock, uv_yields, store_yields, newest_first: true, update_fault: None, find_fault: None, alias_rp: false });
                             }
                             // a store that refuses one counter update
                             if cers.iter().any(|c| matches!(c, Cer::Assert(_) | Cer::AssertSilent(_))) {
-                                v.push(Config { name, cers: cers.clone(), store, lock, uv_yields, store_yields, newest_first: false, update_fault: Some(1), find_fault: None });
+                                v.push(Config { name, cers: cers.clone(), store, lock, uv_yields, store_yields, newest_first: false, update_fault: Some(1), find_fault: None, alias_rp: false });
                                 // a store whose k-th lookup fails once (k counted over the whole run, warm-up included)
                                 for k in [2usize, 3] {
-                                    v.push(Config { name, cers: cers.clone(), store, lock, uv_yields, store_yields, newest_first: false, update_fault: None, find_fault: Some(k) });
+                                    v.push(Config { name, cers: cers.clone(), store, lock, uv_yields, store_yields, newest_first: false, update_fault: None, find_fault: Some(k), alias_rp: false });
                                 }
                             }
                         }
@@ -437,7 +448,7 @@ fn scheduler_engine(rep: &mut Report, args: &Args, only: Option<u64>) {
             1 => vec![Cer::Assert(0), Cer::Assert(0), Cer::Assert(0)],
             _ => vec![Cer::Assert(0), Cer::Register, Cer::Assert(1)],
         };
-        let cfg = Config { name: "three mixed", cers, store: *rng.pick(&[StoreKind::Memory, StoreKind::Rec]), lock: *rng.pick(&[LockKind::Mutex, LockKind::RwLock]), uv_yields: rng.range(1, 2), store_yields: rng.below(2), newest_first: rng.chance(1, 4), update_fault: if rng.chance(1, 4) { Some(rng.below(3)) } else { None }, find_fault: if rng.chance(1, 5) { Some(rng.range(2, 5)) } else { None } };
+        let cfg = Config { name: "three mixed", cers, store: *rng.pick(&[StoreKind::Memory, StoreKind::Rec]), lock: *rng.pick(&[LockKind::Mutex, LockKind::RwLock]), uv_yields: rng.range(1, 2), store_yields: rng.below(2), newest_first: rng.chance(1, 4), update_fault: if rng.chance(1, 4) { Some(rng.below(3)) } else { None }, find_fault: if rng.chance(1, 5) { Some(rng.range(2, 5)) } else { None }, alias_rp: false };
         let r = catch(|| {
             let mut r2 = rng.clone();
             let mut choose = |_s: usize, n: usize| r2.below(n);
